@@ -711,7 +711,9 @@ func (b *bench) recovery(point string) {
 		}
 		// clause 4: "already received" only if a complete copy is in the inbox
 		complete := map[string][][]byte{b.sc.mid(): {mboxkit.Canon(mboxkit.MustBytes(b.sc.target("new").Build()))}}
-		mids := []string{b.sc.mid(), "NEVERSEEN001"}
+		// (the last two can never have been stored: no file system takes a name of that length - the look-up fails with
+		// something other than "does not exist")
+		mids := []string{b.sc.mid(), "NEVERSEEN001", strings.Repeat("L", 252), strings.Repeat("M", 300)}
 		for i := 0; i < b.sc.Pre; i++ {
 			mids = append(mids, bystanders[i].mid)
 		}
